@@ -141,8 +141,11 @@ inline bool begin_case(const std::string &desc) {
     s.sh->inCase = 1;
     ++s.sh->evaluations;
     // keep a few written-out samples, spread over the run
-    if (s.samples.size() < 6 && (s.sh->evaluations == 1 || (s.sh->evaluations % 9973) == 0))
-        s.samples.push_back(desc);
+    // (emitted at once so that they survive a crash of this child)
+    if (s.sampled < 6 && (s.sh->evaluations == 1 || (s.sh->evaluations % 9973) == 0)) {
+        ++s.sampled;
+        emit("S\t" + desc);
+    }
     return true;
 }
 
@@ -211,7 +214,7 @@ inline int run(int argc, char **argv, const std::function<void(Ctx &)> &body) {
         if (WIFSIGNALED(st)) snprintf(b, sizeof b, "signal %d", WTERMSIG(st));
         else snprintf(b, sizeof b, "exit %d", WEXITSTATUS(st));
         crashes.push_back(where + "\t" + b);
-        if (!s.sh->inCase || s.ctx.replay || ++restarts > 50) break;
+        if (!s.sh->inCase || s.ctx.replay || ++restarts > 200) break;
         skip = s.sh->caseIndex;
         s.sh->inCase = 0;
     }
@@ -237,8 +240,9 @@ inline int run(int argc, char **argv, const std::function<void(Ctx &)> &body) {
         else if (f[0] == "S" && f.size() >= 2) { if (samples.size() < 12) samples.push_back(f[1]); }
         else if (f[0] == "N" && f.size() >= 2) nfail += strtoull(f[1].c_str(), nullptr, 10);
     }
+    // deadline_hit also covers "gave up after too many crashes": the space was not enumerated completely
     printf("{\"evaluations\": %llu, \"deadline_hit\": %s, \"nfail\": %llu,\n", (unsigned long long)s.sh->evaluations,
-           s.sh->deadlineHit ? "true" : "false", (unsigned long long)(nfail > fails.size() ? nfail : fails.size()));
+           (s.sh->deadlineHit || !s.sh->done) ? "true" : "false", (unsigned long long)(nfail > fails.size() ? nfail : fails.size()));
     printf(" \"outcomes\": {");
     bool first = true;
     for (auto &o : outcomes) { printf("%s\"%s\": %llu", first ? "" : ", ", jsonEscape(o.first).c_str(), (unsigned long long)o.second); first = false; }
